@@ -531,7 +531,7 @@ pub mod events {
             "age_ts": 1_700_000_000_000i64,
             "outlier": false,
             "destinations": ["other.org"],
-            "unsigned": {"age": 5, "prev_content": {"k": "v"}},
+            "unsigned": {"age": 5, "age_ts": 1_700_000_000_000i64, "replaces_state": "$old:sender.org", "prev_content": {"k": "v"}},
         }));
         if let Some(sk) = state_key {
             m.insert("state_key".into(), json!(sk));
@@ -554,7 +554,7 @@ pub mod events {
         Value::Object(c)
     }
 
-    /// The 17 families: every content key the spec names for the type in any room version, one
+    /// The 18 families: every content key the spec names for the type in any room version, one
     /// unknown content key (`foo`), one unknown top-level key (`foo`), `unsigned`, `redacts`,
     /// `origin` / `membership` / `prev_state`.
     pub fn families() -> Vec<Family> {
@@ -631,6 +631,12 @@ pub mod events {
                     json!({"body": "hi \"there\" \u{1F600}\n", "msgtype": "m.text", "m.relates_to": {"rel_type": "m.thread"}, "foo": 1}),
                 ),
             ),
+            // an event without any `content` key (nothing the signature functions need is in there)
+            f("no-content", {
+                let mut e = base("x.custom", Some("k"), json!({}));
+                e.remove("content");
+                e
+            }),
             f("unknown-type", base("x.custom", Some("k"), json!({"body": "b", "membership": "join", "creator": "c", "foo": 1}))),
         ]
     }
